@@ -8,6 +8,7 @@ import Scico.Model.Autograd
   * `jac`    {n, m, P, Q, Fu, v, w, conjugate, include_eval}
                                             → jvp, vjp (Gmap), Jacobian operator eval/adj
   * `opjac`  {n, m, F={A,B,C,c}, u, v, w}    → `Op.eval u`, `Op.jvp u v`, `Gmap w` (both flags) of the operator family
+  * `optree` {n, m, T, u, v, w}              → the same for an operator tree (`F(G)`, `F±G`, `a*F`, `-F`)
   * `linadj` {n, m, M, cprimal, cout, y}     → `linearAdjoint` applied to `y`
   * `args`   {index, args}                   → `fixArgs`, `sliceArgs`, `cvjpArgs` on labelled arguments
   * `heap`   {ops}                           → eval/grad scale of every `Loss` object after a history
@@ -45,6 +46,20 @@ def jMat {m n : Nat} (A : Mat Float m n) : Json :=
 def getOp? (j : Json) (n m : Nat) : Option (Op Float n m) := do
   some ⟨← getMat? (← field? j "A") m n, ← getMat? (← field? j "B") m n, ← getMat? (← field? j "C") m n,
         ← getCV? (← field? j "c") m⟩
+
+/-- parse an operator tree with input size `n` and output size `m` -/
+partial def getOpT? (n m : Nat) (j : Json) : Option (OpT Float n m) := do
+  let k ← fStr? j "k"
+  match k with
+  | "leaf" => some (.leaf (← getOp? (← field? j "F") n m))
+  | "comp" =>
+    let mid ← fNat? j "mid"
+    some (.comp (← getOpT? mid m (← field? j "F")) (← getOpT? n mid (← field? j "G")))
+  | "add" => some (.add (← getOpT? n m (← field? j "F")) (← getOpT? n m (← field? j "G")))
+  | "sub" => some (.sub (← getOpT? n m (← field? j "F")) (← getOpT? n m (← field? j "G")))
+  | "smul" => some (.smul ⟨← fFloat? j "re", ← fFloat? j "im"⟩ (← getOpT? n m (← field? j "F")))
+  | "neg" => some (.neg (← getOpT? n m (← field? j "F")))
+  | _ => none
 
 /-- parse a functional tree for argument size `n` -/
 partial def getFn? (n : Nat) (j : Json) : Option (Fn Float n) := do
@@ -211,6 +226,15 @@ def handler : Handler := fun op j =>
     let w ← getCV? (← field? j "w") m
     some (ok (jObj [("eval", jCV (F.eval u)), ("jvp", jCV (F.jvp u v)), ("vjp", jCV (vjpWrap true (F.vjpT u) w)),
                     ("vjp_noconj", jCV (vjpWrap false (F.vjpT u) w))]))
+  | "optree" => do
+    let n ← fNat? j "n"
+    let m ← fNat? j "m"
+    let T ← getOpT? n m (← field? j "T")
+    let u ← getCV? (← field? j "u") n
+    let v ← getCV? (← field? j "v") n
+    let w ← getCV? (← field? j "w") m
+    some (ok (jObj [("eval", jCV (T.eval u)), ("jvp", jCV (T.jvp u v)), ("vjp", jCV (vjpWrap true (T.vjpT u) w)),
+                    ("vjp_noconj", jCV (vjpWrap false (T.vjpT u) w))]))
   | "linadj" => do
     let n ← fNat? j "n"
     let m ← fNat? j "m"
